@@ -34,7 +34,9 @@
 //!   client     `MemoryClient::transact(checked)` (its own commit/revert); comparison
 //!              run on a new client over a clone of the storage before the target.
 //! Bound: all histories of length <= 2 (quick) / <= 3 (thorough), each followed by each
-//! target = all transitions of the BFS to depth 3 / 4.
+//! target = all transitions of the BFS to depth 3 / 4; thorough adds the interp model
+//! over a core of 8 transactions (heap64k, deepstack, panic-in-call, store, load, flags,
+//! small-heap, mem-read) to depth 6 (histories <= 5).
 //! Predicate pool part: every predicate transaction is checked by
 //! `check_predicates_async` with a harness `VmMemoryPool` that hands out memories left
 //! behind by every history of length <= 1 (quick) / <= 2 (thorough) (for the
@@ -1286,6 +1288,8 @@ struct Acc {
 struct ReuseModel<'a> {
     env: &'a Env,
     mode: Mode,
+    alphabet: Vec<Act>,
+    label: &'static str,
     acc: Mutex<Acc>,
 }
 
@@ -1299,7 +1303,7 @@ impl Model for ReuseModel<'_> {
     }
 
     fn actions(&self, _s: &Vec<Act>) -> Vec<Act> {
-        self.env.alphabet(self.mode)
+        self.alphabet.clone()
     }
 
     fn step(&self, s: &Vec<Act>, a: &Act, _path: &[Act], ctx: &Ctx) -> Option<Vec<Act>> {
@@ -1316,7 +1320,7 @@ impl Model for ReuseModel<'_> {
             let mut acc = self.acc.lock().unwrap();
             *acc
                 .outcomes
-                .entry(format!("{}:{}:{class}", self.mode.s(), self.env.name(*a)))
+                .entry(format!("{}:{}:{class}", self.label, self.env.name(*a)))
                 .or_insert(0) += 1;
             if let Some(r) = &res {
                 let mut bump = |k: &str, on: bool| {
@@ -1340,11 +1344,11 @@ impl Model for ReuseModel<'_> {
             let take = {
                 let mut acc = self.acc.lock().unwrap();
                 acc.samples += 1;
-                acc.samples <= 2
+                acc.samples <= if self.label == "interp-core-deep" { 1 } else { 2 }
             };
             if take {
                 ctx.sample(json!({
-                    "model": self.mode.s(),
+                    "model": self.label,
                     "history": self.env.names(s),
                     "target": self.env.name(*a),
                     "on_reused_instance": {"outcome": class, "receipts": sum.receipts, "gas_used": sum.gas_used, "predicates": sum.predicates},
@@ -1591,24 +1595,40 @@ fn explore(ctx: &Ctx) {
 
     // reuse: BFS to depth (history length + 1)
     let depth = ctx.pick(3usize, 4usize);
-    for mode in [Mode::Interp, Mode::Transactor, Mode::Client] {
+    let mut runs: Vec<(Mode, &'static str, Vec<Act>, usize)> = vec![
+        (Mode::Interp, "interp", env.alphabet(Mode::Interp), depth),
+        (Mode::Transactor, "transactor", env.alphabet(Mode::Transactor), depth),
+        (Mode::Client, "client", env.alphabet(Mode::Client), depth),
+    ];
+    if ctx.thorough() {
+        // longer histories (<= 5) over the transactions that leave / reveal the most
+        let core: Vec<Act> = ["heap64k", "deepstack", "panic-in-call", "store", "load", "flags", "small-heap", "mem-read"]
+            .iter()
+            .map(|n| env.parse(n))
+            .collect();
+        runs.push((Mode::Interp, "interp-core-deep", core, 6));
+    }
+    for (mode, label, alphabet, depth) in runs {
+        let names = env.names(&alphabet);
         let m = ReuseModel {
             env: &env,
             mode,
+            alphabet,
+            label,
             acc: Mutex::new(Acc::default()),
         };
         let st = bfs::bfs(&m, depth, 50_000_000, ctx);
         let acc = m.acc.into_inner().unwrap();
         ctx.outcomes_merge(&acc.outcomes);
         ctx.set(
-            mode.s(),
+            label,
             json!({
                 "max_history_len": st.completed_depth.saturating_sub(1),
                 "depth_completed": st.completed_depth,
                 "states(histories)": st.states,
                 "transitions(history,target pairs)": st.transitions,
                 "per_depth": st.per_depth,
-                "alphabet_size": env.alphabet(mode).len(),
+                "alphabet": names,
                 "residues_present_before_target(counts of pairs)": acc.residues,
                 "capped": st.capped,
             }),
